@@ -154,9 +154,41 @@ func quad(f func(float64) float64, a, b, h float64) float64 {
 	return s
 }
 
+// normTail is an evaluation of the standard normal tail probability Q(z) = P[Z > z], z > 0, that is
+// independent of math.Erf/Erfc: Q(z) = φ(z) / (z + 1/(z + 2/(z + 3/(z + …)))) (Laplace's continued
+// fraction for the Mills ratio; its convergents bracket the value alternately), evaluated bottom-up
+// with enough terms for z >= 2.5; φ through math.Exp split as exp(-h²/2)·exp(-(z²-h²)/2) is not
+// needed: exp(-z²/2) of a float64 z carries a relative error ~ z²·2^-53 <= 2e-13 at z = 38.
+// Numerical reference (not a proof); NaN where it does not apply.
+func normTail(z float64) float64 {
+	if !(z >= 2.5) || z > 40 {
+		return math.NaN()
+	}
+	n := 40 + int(4000/(z*z)) // more terms near the centre
+	lo, hi := 0.0, 0.0
+	for pass := 0; pass < 2; pass++ {
+		t := 0.0
+		for k := n + pass; k >= 1; k-- {
+			t = float64(k) / (z + t)
+		}
+		v := math.Exp(-z*z/2) * invSqrt2PiRef / (z + t)
+		if pass == 0 {
+			lo = v
+		} else {
+			hi = v
+		}
+	}
+	if math.Abs(lo-hi) > 1e-13*math.Abs(hi) { // successive convergents must agree
+		return math.NaN()
+	}
+	return (lo + hi) / 2
+}
+
+const invSqrt2PiRef = 0.398942280401432677939946059934381868475858631164934657665925
+
 func xGrid(r *hx.Rand) []float64 {
 	xs := []float64{0}
-	for _, v := range []float64{1e-9, 1e-8, 1e-7, 1e-6, 1e-5, 1e-4, 1e-3, 0.01, 0.1, 0.25, 0.5, 0.75, 1, 1.25, 1.5, 1.7, 1.75, 2, 2.5, 3, 4, 5, 6.5, 8, 10, 15, 20, 30, 40, 50} {
+	for _, v := range []float64{1e-9, 1e-8, 1e-7, 1e-6, 1e-5, 1e-4, 1e-3, 0.01, 0.1, 0.25, 0.5, 0.75, 1, 1.25, 1.5, 1.7, 1.75, 2, 2.5, 3, 4, 5, 6.5, 7, 8, 8.3, 9, 10, 12, 15, 20, 25, 30, 35, 37, 37.5, 40, 50} {
 		xs = append(xs, v, -v)
 	}
 	for i := 0; i < 6; i++ { // random points and close pairs
@@ -177,7 +209,7 @@ type cdfDist interface {
 // tbl(x) returns the argument at which the code evaluates its transcendental parameter for x and
 // the value there (t: the incomplete beta argument and I; normal: the erfc argument and erfc);
 // the float64 instance of the model recomputes the argument itself and looks the value up.
-func gridCase(kind, params string, d cdfDist, inv func(float64) float64, centre, scale float64, xs []float64, tag string, tbl func(float64) (float64, float64, float64)) {
+func gridCase(kind, params string, d cdfDist, inv func(float64) float64, centre, scale float64, xs []float64, tag string, tbl func(float64) (float64, float64, float64), tail func(float64) float64) {
 	F := make([]float64, len(xs))
 	Q := make([]float64, len(xs))
 	P := make([]float64, len(xs))
@@ -203,6 +235,10 @@ func gridCase(kind, params string, d cdfDist, inv func(float64) float64, centre,
 			Q[i] = 0.5 - acc
 		}
 	})
+	T := make([]float64, len(xs))
+	for i, x := range xs {
+		T[i] = tail(x)
+	}
 	A := make([]float64, len(xs))
 	A2 := make([]float64, len(xs))
 	B := make([]float64, len(xs))
@@ -211,10 +247,10 @@ func gridCase(kind, params string, d cdfDist, inv func(float64) float64, centre,
 			A[i], A2[i], B[i] = tbl(x)
 		}
 	})
-	hx.Printf("case %d kind=%s %s c=%s xs=%s F=%s Q=%s P=%s V=%s A=%s A2=%s B=%s tag=%s\n", id, kind, params, fb(centre), fbList(xs), fbList(F), fbList(Q), fbList(P), fbList(V), fbList(A), fbList(A2), fbList(B), tag)
+	hx.Printf("case %d kind=%s %s c=%s xs=%s F=%s Q=%s P=%s V=%s A=%s A2=%s B=%s T=%s tag=%s\n", id, kind, params, fb(centre), fbList(xs), fbList(F), fbList(Q), fbList(P), fbList(V), fbList(A), fbList(A2), fbList(B), fbList(T), tag)
 	if ok {
 		hx.Printf("obs %d F=%s\n", id, fbList(F))
-		hx.Printf("sobs %d range=ok mono=ok sym=ok quad=ok inv=ok\n", id)
+		hx.Printf("sobs %d range=ok mono=ok sym=ok quad=ok inv=ok tail=ok\n", id)
 	}
 	id++
 }
@@ -253,7 +289,7 @@ func distCases(r *hx.Rand) {
 			}
 			arg := nu / (nu + x2)
 			return arg, nu / 2, stats.VerifC12BetaInc(arg, nu/2, 0.5)
-		})
+		}, func(float64) float64 { return math.NaN() })
 	}
 	for i := per(hx.N(40, 800)); i > 0; i-- {
 		mu, sigma := 0.0, 1.0
@@ -278,6 +314,9 @@ func distCases(r *hx.Rand) {
 		gridCase("ncdf", "mu="+fb(mu)+" sigma="+fb(sigma), d, d.InvCDF, mu, sigma, xs, tag, func(x float64) (float64, float64, float64) {
 			z := -(x - mu) / (sigma * math.Sqrt2)
 			return z, 0, math.Erfc(z)
+		}, func(x float64) float64 {
+			// lower tail: F(x) = Q(-(x-mu)/sigma), relative accuracy demanded down to -37.5 sigma
+			return normTail(-(x - mu) / sigma)
 		})
 	}
 }
